@@ -739,7 +739,11 @@ func (x *Exec) loopEnter(st *State, fr *Frame, h, prev *ssa.BasicBlock, ord int,
 	ls := x.loopSpec(fr, ord)
 	lname := x.loopName(fr, ord)
 	if ls == nil {
-		panic(unsupported(fmt.Sprintf("loop %d of %s has no invariant", ord, funcKey(fr.Fn.(*ssa.Function)))))
+		// no loop contract: unroll. Complete (no bound on the inputs) exactly when every path leaves the loop within
+		// unrollBound iterations - a loop over a fixed number of elements; otherwise the function needs an invariant.
+		lc := &loopCtx{header: h, parent: outer, fr: fr, unroll: true, name: lname}
+		x.execFrom(st, fr, h, prev, 0, lc, k)
+		return
 	}
 	// bind phis with entry values to check initialisation
 	x.bindPhis(st, fr, h, prev)
@@ -809,6 +813,21 @@ func (x *Exec) loopEnter(st *State, fr *Frame, h, prev *ssa.BasicBlock, ord int,
 		x.curPath++
 	}
 	run(false)
+}
+
+const unrollBound = 64
+
+func (x *Exec) unrollBackEdge(st *State, fr *Frame, h, prev *ssa.BasicBlock, c *loopCtx, k cont) {
+	if c.count+1 >= unrollBound {
+		if x.quiet == 0 {
+			x.fail(fmt.Sprintf("%s has no invariant and does not end within %d unrolled iterations", c.name, unrollBound))
+		}
+		x.returns++
+		return
+	}
+	nc := *c
+	nc.count++
+	x.execFrom(st, fr, h, prev, 0, &nc, k)
 }
 
 func (x *Exec) loopBackEdge(st *State, fr *Frame, h, prev *ssa.BasicBlock, lc *loopCtx) {
